@@ -288,7 +288,7 @@ def cnv_viewbox(attribute, arg, element):
     return arg
 
 def cnv_xlinkshow(attribute, arg, element):
-    if str(arg) not in ("new", "replace", "embed"):
+    if str(arg) not in ("new", "replace", "embed", "none"):
         raise ValueError( "'%s' not allowed" % str(arg))
     return str(arg)
 
